@@ -8,9 +8,9 @@ RULE = ('105 scenarios = key exchange {RSA, ECDHE_RSA, ECDHE_ECDSA, ECDH_RSA, EC
         'scenarios, every k-th for the rest), record-level drop / duplicate / swap / substitute-from-another-session at every record index. '
         'Oracle: the endpoint the altered bytes were destined for never becomes ready (renegotiation: never re-keys), no application byte is '
         'delivered on either side, altered protected records are rejected on receipt; record-header bytes: either nobody completes or the '
-        'completed session delivers data exactly. Plus 245 authentication cases: every scripted validator error, wrong key type / key / curve / '
+        'completed session delivers data exactly. Plus about 700 authentication cases: every scripted validator error, wrong key type / key / curve / '
         'usages, server or client private key not matching the certificate, weak RSA key, rogue server policy (un-offered suite, TLS-1.2 suite '
-        'below 1.2), static-ECDH client authentication by a rogue certificate policy that holds a victim certificate (other curve / same curve) but not its key and derives Finished from premaster guesses made of public data, disjoint version ranges, TLS_FALLBACK_SCSV, with honest controls that must complete. distinct = scenarios x fault classes.')
+        'below 1.2), static-ECDH client authentication by a rogue certificate policy that holds a victim certificate (other curve / same curve) but not its key and derives Finished from premaster guesses made of public data, disjoint version ranges, TLS_FALLBACK_SCSV, the server-side validator judging the client chain (every verdict, wrong key, unneeded usage; strict and with BR_OPT_TOLERATE_NO_CLIENT_AUTH), a session learnt from a failed attempt offered for resumption, and validators (client side and server side) whose answer changes for the renegotiation: the second answer must be asked for and must count; with honest controls that must complete. distinct = scenarios x fault classes.')
 ASSUMPTIONS = [
     'a victim left waiting for bytes after its peer failed (or after a removed last flight / enlarged length field) is counted as "never ready", since the engine API has no transport-closed notification',
     'seeder replaced by a fixed seed (hook H1); x86-64 ASan/UBSan build',
@@ -18,7 +18,8 @@ ASSUMPTIONS = [
 EVAL = ['cases']
 DISTINCT = ['scenario', 'auth_scenario']
 REQUIRED = ['cases', 'faults_message_byte', 'faults_protected_byte', 'faults_record_level', 'faults_header_byte',
-            'victim_failed_with_error', 'auth_cases', 'auth_controls', 'reference_runs', 'rogue_static_ecdh_keyx_calls']
+            'victim_failed_with_error', 'auth_cases', 'auth_controls', 'reference_runs', 'rogue_static_ecdh_keyx_calls',
+            'reneg_validator_consulted', 'reneg_refusals']
 EXHAUSTIVE = 'every handshake/CCS record byte of both flights for the fully swept scenarios; every record index for each record-level edit in all scenarios'
 NW = 16
 
